@@ -4,6 +4,7 @@ package c16
 
 import (
 	"fmt"
+	"reflect"
 	"sort"
 	"strconv"
 	"strings"
@@ -25,7 +26,7 @@ func init() {
 		Impl:       impl,
 		Check:      check,
 		NonTrivial: nonTrivial,
-		Rule: "op sequences on up to 4 registers (setz.Bits, setz.Bitmap, dsz.Bits) over values 0..260 (+boundaries 63/64/65/127/128…, rare huge values for Contains/Remove): add/remove/contains/grow/len/cap/clone, diff/intersect/merge between registers of any two word lengths (incl. self), resumable iterators interleaved with mutations, Range/All with early stop; " +
+		Rule: "op sequences on up to 4 registers (setz.Bits, setz.Bitmap, dsz.Bits) over values 0..260 (+boundaries 63/64/65/127/128…, rare huge values for Contains/Remove): add/remove/contains/grow/len/cap/clone, diff/intersect/merge between registers of any two word lengths (incl. self), resumable iterators interleaved with mutations, Range/All with early stop, `layout` (word counts and overlapping backing arrays of the private word slices, read by reflection, compared with the one-memory model); " +
 			"non-trivial = at least one bulk operation, or an enumeration (iterator / Range / All) that crosses a word boundary, in a sequence of ≥ 6 ops; distinct by hash of the op list",
 		Classify: classify,
 		Parallel: true,
@@ -54,6 +55,70 @@ func (r *reg) bitmap() *setz.Bitmap {
 		return r.bm
 	}
 	return nil
+}
+
+// setHeader reads the slice header (data pointer, len, cap) of the private `set []uint64`
+// field of a register by reflection; ok=false when the field layout is not the expected one
+// (then `layout` ops are never generated: see layoutOK).
+func (r *reg) setHeader() (ptr uintptr, l, c int, ok bool) {
+	defer func() {
+		if recover() != nil {
+			ok = false
+		}
+	}()
+	var v reflect.Value
+	switch r.kind {
+	case "bits":
+		v = reflect.ValueOf(r.bits).Elem().FieldByName("Bitmap").FieldByName("set")
+	case "bitmap":
+		v = reflect.ValueOf(r.bm).Elem().FieldByName("set")
+	default:
+		v = reflect.ValueOf(r.d).Elem().FieldByName("set")
+	}
+	if !v.IsValid() || v.Kind() != reflect.Slice || v.Type().Elem().Kind() != reflect.Uint64 {
+		return 0, 0, 0, false
+	}
+	return v.Pointer(), v.Len(), v.Cap(), true
+}
+
+// layoutOK: the private word slices can be inspected (false after a rename of the fields;
+// the layout observation is then simply not part of the generated cases).
+var layoutOK = func() bool {
+	for _, r := range []*reg{{kind: "bits", bits: &setz.Bits{}}, {kind: "bitmap", bm: &setz.Bitmap{}}, {kind: "dsz", d: &dsz.Bits{}}} {
+		if _, _, _, ok := r.setHeader(); !ok {
+			return false
+		}
+	}
+	return true
+}()
+
+// showLayout: word count of every register and the pairs i<j of registers whose backing
+// arrays [ptr, ptr+8*cap) share a cell.
+func showLayout(regs []*reg) string {
+	type hd struct {
+		p    uintptr
+		l, c int
+	}
+	hs := make([]hd, len(regs))
+	lens := make([]uint, len(regs))
+	for i, r := range regs {
+		p, l, c, ok := r.setHeader()
+		if !ok {
+			return "layout-unavailable"
+		}
+		hs[i] = hd{p, l, c}
+		lens[i] = uint(l)
+	}
+	var pairs []uint
+	for i := range hs {
+		for j := i + 1; j < len(hs); j++ {
+			a, b := hs[i], hs[j]
+			if a.c != 0 && b.c != 0 && a.p < b.p+8*uintptr(b.c) && b.p < a.p+8*uintptr(a.c) {
+				pairs = append(pairs, uint(i), uint(j))
+			}
+		}
+	}
+	return "lens " + showUints(lens) + " overlap " + showUints(pairs)
 }
 
 type iterator interface {
@@ -105,6 +170,11 @@ func impl(c core.Case) []string {
 		},
 		func(t []string) string {
 			switch t[0] {
+			case "layout":
+				if len(t) != 1 {
+					return "bad-op"
+				}
+				return showLayout(regs)
 			case "add", "remove", "contains", "grow":
 				if len(t) != 3 {
 					return "bad-op"
@@ -410,6 +480,9 @@ func gen(r *core.Rand, tier string) core.Case {
 			}
 		case 3:
 			emit("grow %d %d", x, genVal(r, pool))
+			if r.Chance(50) {
+				emit("cap %d", x)
+			}
 		case 4:
 			emit("len %d", x)
 		case 5:
@@ -428,6 +501,9 @@ func gen(r *core.Rand, tier string) core.Case {
 			s := pickSet()
 			if len(ds) > 0 && s >= 0 {
 				emit("clone %d %d", ds[r.Intn(len(ds))], s)
+				if layoutOK && r.Chance(35) {
+					emit("layout")
+				}
 			}
 		case 8: // bulk
 			a, b := pickSet(), pickSet()
@@ -445,6 +521,9 @@ func gen(r *core.Rand, tier string) core.Case {
 			}
 			if r.Chance(25) {
 				emit("iterall %d", b)
+			}
+			if layoutOK && r.Chance(25) {
+				emit("layout")
 			}
 		case 9:
 			emit("iter %d %d", r.Intn(2), x)
@@ -486,6 +565,9 @@ func gen(r *core.Rand, tier string) core.Case {
 			}
 		}
 	}
+	if layoutOK && r.Chance(30) {
+		emit("layout")
+	}
 	return core.Case{Lines: lines, Tag: strings.Join(kinds, "+")}
 }
 
@@ -521,6 +603,15 @@ func corpus() []core.Case {
 		core.Case{Tag: "corpus", Lines: []string{"@ C16 bitmap bitmap", "value 0", "iter 0 0", "value 0", "next 0", "value 0", "add 0 0", "next 0", "value 0", "grow 0 200", "cap 0", "next 0", "value 0", "add 0 255", "next 0", "value 0", "clone 1 0", "add 1 5", "contains 0 5", "remove 0 255", "contains 1 255", "merge 0 0", "diff 0 0", "len 0"}},
 		core.Case{Tag: "corpus", Lines: []string{"@ C16 bits bits", "add 0 1", "add 0 300", "add 1 1", "intersect 0 1", "len 0", "cap 0", "merge 1 0", "cap 1", "len 1", "diff 1 0", "len 1", "iterall 1"}},
 	)
+	if layoutOK {
+		cs = append(cs,
+			// Merge into an empty receiver, then element ops on both sides (sharing would show),
+			// Intersect with a shorter operand followed by re-growth inside the old capacity
+			core.Case{Tag: "corpus-layout", Lines: []string{"@ C16 bits bits bitmap", "add 1 3", "add 1 63", "add 1 64", "add 1 129", "merge 0 1", "layout", "remove 0 63", "add 0 70", "iterall 1", "len 1", "add 1 5", "iterall 0", "len 0", "clone 2 0", "layout", "add 2 200", "remove 0 3", "iterall 2", "iterall 0", "layout"}},
+			core.Case{Tag: "corpus-layout", Lines: []string{"@ C16 bits bits", "add 0 1", "add 0 63", "add 0 64", "add 0 65", "add 0 130", "add 0 192", "add 0 200", "add 0 255", "add 1 1", "add 1 63", "intersect 0 1", "len 0", "cap 0", "layout", "add 0 192", "len 0", "iterall 0", "range 0 -1", "grow 0 255", "iterall 0", "len 0", "layout"}},
+			core.Case{Tag: "corpus-layout", Lines: []string{"@ C16 bitmap bitmap", "add 0 300", "remove 0 300", "merge 0 1", "merge 1 0", "layout", "add 1 5", "contains 0 5", "diff 0 0", "merge 0 0", "intersect 1 1", "layout", "clone 1 1", "layout", "clone 0 1", "add 0 9", "iterall 1", "layout"}},
+		)
+	}
 	return cs
 }
 
@@ -561,6 +652,7 @@ func check(c core.Case, out []string) *core.Failure {
 	}
 	sets := make([]oset, len(kinds))
 	lastCap := make([]int, len(kinds))
+	minCap := make([]int, len(kinds))
 	for i := range sets {
 		sets[i] = oset{}
 	}
@@ -586,6 +678,11 @@ func check(c core.Case, out []string) *core.Failure {
 			return fail("panic", "no panic")
 		}
 		if o == "bad-op" {
+			continue
+		}
+		if t[0] == "layout" {
+			// an observation of the representation (slice headers), not of the set: compared with
+			// the one-memory model by the correspondence check only
 			continue
 		}
 		ri, _ := strconv.Atoi(t[1])
@@ -618,6 +715,9 @@ func check(c core.Case, out []string) *core.Failure {
 			case "grow":
 				want = "ok"
 			}
+			if (t[0] == "add" || t[0] == "grow") && int(n)+1 > minCap[ri] {
+				minCap[ri] = int(n) + 1 // Grow(n) / Add(n) make room for n: Cap() > n from now on
+			}
 			if o != want {
 				return fail(t[0]+"-flag", want)
 			}
@@ -639,6 +739,9 @@ func check(c core.Case, out []string) *core.Failure {
 			if err != nil || cp%64 != 0 || cp <= mx || cp < 0 {
 				return fail("cap", fmt.Sprintf("a multiple of 64 above the largest member %d", mx))
 			}
+			if cp < minCap[ri] {
+				return fail("cap-after-grow", fmt.Sprintf("at least %d (room was made by an earlier Grow/Add and capacity never shrinks)", minCap[ri]))
+			}
 			lastCap[ri] = cp
 		case "clone":
 			si, _ := strconv.Atoi(t[2])
@@ -647,6 +750,7 @@ func check(c core.Case, out []string) *core.Failure {
 				n[k] = true
 			}
 			sets[ri] = n
+			minCap[ri] = minCap[si]
 			touch(ri)
 		case "diff", "intersect", "merge":
 			bi, _ := strconv.Atoi(t[2])
@@ -671,6 +775,9 @@ func check(c core.Case, out []string) *core.Failure {
 				}
 				for k := range b {
 					n[k] = true
+				}
+				if minCap[bi] > minCap[ri] {
+					minCap[ri] = minCap[bi]
 				}
 			}
 			sets[ri] = n
@@ -776,6 +883,14 @@ func classify(c core.Case, out []string) []string {
 		}
 		if o == "panic" {
 			ls = append(ls, "panic")
+			continue
+		}
+		if t[0] == "layout" {
+			if strings.HasSuffix(o, "overlap []") {
+				ls = append(ls, "layout-disjoint")
+			} else {
+				ls = append(ls, "layout-OVERLAP")
+			}
 			continue
 		}
 		r, _ := strconv.Atoi(t[1])
